@@ -109,32 +109,85 @@ def unpack(v):
     return ("?", v)
 
 
+def _rat(v):
+    return v.field(0) if isinstance(v, Agg) and v.path == "rational::Rational" else v
+
+
 def run_pow(facts):
-    """Summary of eval::pow(span, base, pow): the counting loop is replaced by its recognised closed form
-    value' = value * b^|c|.  Returns (dom, body, outcomes, loop info or None, reason)."""
+    """Summary of eval::pow(span, base, pow).  Its counting loop is summarised inductively: from the loop head with the
+    accumulator ACC and the counter CNT arbitrary, one turn either leaves (CNT = 0, ACC unchanged) or continues with
+    ACC * X for a loop-invariant X and CNT - s where s = 1 on a non-negative counter (a magnitude) or s = signum(counter
+    at entry); hence the loop computes ACC0 * X^|CNT0| and leaves CNT = 0.  Returns (dom, body, outcomes, info or None, reason)."""
+    from ..absint import evalterm
+    from fractions import Fraction
     body = facts.fn("eval::pow")
-    info, why = loops.counted_product_loop(body)
+    heads = loops.loop_heads(body)
     dom = OpsDomain(facts)
     it = core.Interp(facts, dom, budget=200000)
     args = [Sym("span"), numeric("base"), numeric("pow")]
-    if info is None:
-        return dom, body, None, None, why
-    outs = it.run(body, args, {}, stop={info["head"]})
-    final = []
+    if len(heads) != 1:
+        return dom, body, None, None, "eval::pow has %d loops; the product loop cannot be singled out" % len(heads)
+    H = heads[0]
+    vs = loops.variant_locals(body, H)
+    acc_l = [l for l in vs if "rational::Rational" in body.local_ty(l) or "Ratio<" in body.local_ty(l)]
+    cnt_l = [l for l in vs if "BigInt" in body.local_ty(l) or "BigUint" in body.local_ty(l)]
+    if len(acc_l) != 1 or len(cnt_l) != 1:
+        return dom, body, None, None, "loop state of eval::pow: accumulators %s, counters %s (one of each expected)" % (acc_l, cnt_l)
+    A, C = acc_l[0], cnt_l[0]
     frame = 1
+    outs = it.run(body, args, {}, stop={H})
+    final = []
+    ACC, CNT = Sym("ACC"), Sym("CNT")
+    GRID = [{"ACC": Fraction(a), "CNT": Fraction(c), "X": Fraction(x)} for a in (1, Fraction(3, 2)) for c in (-3, -1, 1, 2, 5) for x in (Fraction(2), Fraction(-1, 3))]
+    info = {"head": H, "acc": A, "c": C, "states": 0}
     for o in outs:
         if o.kind != "stop":
             final.append(o)
             continue
+        info["states"] += 1
         st = o.store
-        acc = it.read_ref(st, Ref(frame, info["acc"]))
-        c = it.read_ref(st, Ref(frame, info["c"]))
-        b = it.read_ref(st, Ref(frame, info["b"]))
-        accv = acc.field(0) if isinstance(acc, Agg) else acc
-        bv = b.field(0) if isinstance(b, Agg) else b
-        new = Agg("adt", "rational::Rational", 0, "Rational", (T("*", accv, T("pow", bv, T("abs", c))),))
-        st2 = it.write_ref(st, Ref(frame, info["acc"]), new)
-        st2 = it.write_ref(st2, Ref(frame, info["c"]), K(0))
-        for o2 in it.run(body, args, {}, start=(info["exit"], st2)):
+        acc0 = _rat(it.read_ref(st, Ref(frame, A)))
+        c0 = it.read_ref(st, Ref(frame, C))
+        st1 = it.write_ref(st, Ref(frame, A), Agg("adt", "rational::Rational", 0, "Rational", (ACC,)))
+        st1 = it.write_ref(st1, Ref(frame, C), CNT)
+        turn = it.run(body, args, {}, start=(H, st1), stop={H})
+        back = [t for t in turn if t.kind == "stop"]
+        if len(back) != 1:
+            return dom, body, None, None, "one turn of eval::pow's loop returns to its head on %d path(s)" % len(back)
+        b = back[0]
+        if dom.decide(b.store, T("is_zero", CNT)) is not False:
+            return dom, body, None, None, "the loop of eval::pow continues without having tested its counter non-zero"
+        acc1 = _rat(it.read_ref(b.store, Ref(frame, A)))
+        c1 = it.read_ref(b.store, Ref(frame, C))
+        X = None
+        if isinstance(acc1, T) and acc1.op == "*" and len(acc1.args) == 2 and ACC in acc1.args:
+            X = acc1.args[1] if acc1.args[0] == ACC else acc1.args[0]
+        if X is None or "ACC" in repr(X) or "CNT" in repr(X):
+            return dom, body, None, None, "one turn of the loop turns the accumulator into %r; expected ACC * (loop-invariant factor)" % (acc1,)
+        step = None
+        if isinstance(c1, T) and c1.op == "-" and c1.args[0] == CNT:
+            step = c1.args[1]
+        nonneg = isinstance(c0, T) and c0.op == "abs"
+        sg = lambda x: (x > 0) - (x < 0)
+        okstep = False
+        if step is not None:
+            k = step.v if isinstance(step, (K,)) else (Fraction(step.v) if isinstance(step, Const) and isinstance(step.v, int) else None)
+            if k == 1 and nonneg:
+                okstep = True
+            elif step == T("signum", c0):
+                okstep = True
+        if not okstep:
+            return dom, body, None, None, ("one turn of the loop turns the counter %r into %r; expected a step of 1 on a magnitude or of "
+                                           "signum(counter at entry)" % (c0, c1))
+        # the exits of the turn leave the accumulator alone
+        for t in turn:
+            if t.kind == "stop":
+                continue
+            if dom.decide(t.store, T("is_zero", CNT)) is not True:
+                return dom, body, None, None, "the loop of eval::pow is left on a path that did not test its counter zero"
+        closed = T("*", acc0, T("pow", X, T("abs", c0)))
+        st2 = it.write_ref(st, Ref(frame, A), Agg("adt", "rational::Rational", 0, "Rational", (closed,)))
+        st2 = it.write_ref(st2, Ref(frame, C), K(0))
+        for o2 in it.run(body, args, {}, start=(H, st2)):
             final.append(o2)
     return dom, body, final, info, None
